@@ -394,6 +394,46 @@ def run(ctx: Any, prog: Program) -> None:
             ctx.check('C01.R9', hz is None, kv, n, f'{qual} formats with the template `{U(tmpl)[:60]}`, which contains tree content (`{U(hz)[:40] if hz is not None else ""}`): a `%` or brace in that name/value is read as a '
                       'format directive - it is dropped, doubled or raises', func=qual, text=f'{qual}: template `{U(tmpl)[:40]}` free of content')
         ctx.check('C01.R9', True, kv, fn, f'{qual}: {n9} format operation(s) examined', func=qual, text=f'{qual}: format operations examined')
+    # ---- R10: every parse reads only its own text ---------------------------------------------------------------------------------------------
+    # Keyvalues.parse builds a fresh tokenizer; what that tokenizer returns must come from the text it was given.  Per-object state that the
+    # token functions change in place (the push-back list) therefore has to be created per object, in __init__: a list/dict/set written as a
+    # class-level default is ONE object shared by every tokenizer of the process - a token left pushed back by any earlier, unrelated
+    # tokenizer is then delivered in front of this text.
+    ctx.rule('C01.R10', 'tokenizer state that is mutated in place is created per instance in __init__, not shared as a class-level default', floor=1)
+    tk10 = prog.module('tokenizer')
+    cls_nodes = {c.name: c for c in tk10.tree.body if isinstance(c, ast.ClassDef)}
+    tok_classes = [c for n_, c in cls_nodes.items() if n_.endswith('Tokenizer')]
+    ctx.shape('C01.R10', len(tok_classes) >= 2, tk10, tk10.tree, 'tokenizer classes (BaseTokenizer, Tokenizer, ...) found', func='<module>', text='tokenizer classes')
+    MUTATORS = {'append', 'extend', 'insert', 'pop', 'remove', 'clear', 'add', 'discard', 'update', 'setdefault', 'popitem', 'appendleft', 'popleft', 'sort', 'reverse'}
+    for cnode in tok_classes:
+        def bases_chain(c_: ast.ClassDef) -> List[ast.ClassDef]:
+            out_ = [c_]
+            for b_ in c_.bases:
+                bn = dotted(b_)
+                if bn in cls_nodes and cls_nodes[bn] not in out_:
+                    out_ += bases_chain(cls_nodes[bn])
+            return out_
+        chain = bases_chain(cnode)
+        meths = [m for c_ in chain for m in c_.body if isinstance(m, ast.FunctionDef)]
+        mutated = set()
+        for m in meths:
+            me = m.args.args[0].arg if m.args.args else 'self'
+            for n in ast.walk(m):
+                if isinstance(n, ast.Call) and isinstance(n.func, ast.Attribute) and n.func.attr in MUTATORS and isinstance(n.func.value, ast.Attribute) and isinstance(n.func.value.value, ast.Name) and n.func.value.value.id == me:
+                    mutated.add(n.func.value.attr)
+                if isinstance(n, (ast.Subscript,)) and isinstance(n.ctx, (ast.Store, ast.Del)) and isinstance(n.value, ast.Attribute) and isinstance(n.value.value, ast.Name) and n.value.value.id == me:
+                    mutated.add(n.value.attr)
+        init_sets = {t.attr for c_ in chain for m in c_.body if isinstance(m, ast.FunctionDef) and m.name == '__init__' for a in ast.walk(m) if isinstance(a, (ast.Assign, ast.AnnAssign))
+                     for t in (a.targets if isinstance(a, ast.Assign) else [a.target]) if isinstance(t, ast.Attribute) and isinstance(t.value, ast.Name) and t.value.id == m.args.args[0].arg}
+        for attr in sorted(mutated):
+            shared = [st for c_ in chain for st in c_.body if isinstance(st, (ast.Assign, ast.AnnAssign)) and st.value is not None
+                      and any(isinstance(t, ast.Name) and t.id == attr for t in (st.targets if isinstance(st, ast.Assign) else [st.target]))
+                      and (isinstance(st.value, (ast.List, ast.Dict, ast.Set, ast.ListComp, ast.DictComp, ast.SetComp)) or (isinstance(st.value, ast.Call) and dotted(st.value.func) in ('list', 'dict', 'set', 'deque', 'collections.deque', 'defaultdict', 'collections.defaultdict')))]
+            ok10 = attr in init_sets or not shared
+            ctx.check('C01.R10', ok10, tk10, shared[0] if shared else cnode, f'{cnode.name}: `{attr}` is changed in place by the token functions, has the class-level default `{U(shared[0].value)[:30] if shared else ""}` and is not assigned in __init__: '
+                      'all tokenizers share that one object, so a token pushed back on one tokenizer is returned by the next one created (parse(serialise(tree)) then starts with a foreign token)',
+                      func=cnode.name, text=f'{cnode.name}.{attr} is per-instance state')
+
     # ---- R8: what _serialise renders is what comes out ----------------------------------------------------------------------
     # The public wrapper only chooses the stream and the brace spelling.  Text that is rendered into a side buffer and then re-cut by a
     # line-oriented function (textwrap.indent, splitlines, replace) is re-interpreted *as lines*: characters inside the quotes that such a
@@ -484,6 +524,8 @@ def _in_orelse(ifnode: ast.If, node: ast.AST, mod: Any) -> bool:
 
 
 MUTANTS = [
+    {'id': 'pushback_list_class_level', 'file': 'tokenizer.py', 'find': "    _pushback: list[tuple[Token, str]]\n", 'replace': "    _pushback: list[tuple[Token, str]] = []\n", 'extra': [{'file': 'tokenizer.py', 'find': "        self._pushback = []\n        self.line_num = 1\n", 'replace': "        self.line_num = 1\n"}], 'expect': 'C01.R10'},
+    {'id': 'ok_pushback_default_and_init', 'file': 'tokenizer.py', 'find': "    _pushback: list[tuple[Token, str]]\n", 'replace': "    _pushback: list[tuple[Token, str]] = []\n", 'expect': None},
     {'id': 'leaf_line_percent_formatted', 'file': 'keyvalues.py', 'find': "            file.write(f'{cur_indent}\"{escape_text(self._real_name)}\" \"{escape_text(self._value)}\"\\n')", 'replace': "            name_part = f'{cur_indent}\"{escape_text(self._real_name)}\"'\n            file.write(f'{name_part} \"%s\"\\n' % escape_text(self._value))", 'expect': 'C01.R9'},
     {'id': 'ok_leaf_line_percent_constant_template', 'file': 'keyvalues.py', 'find': "            file.write(f'{cur_indent}\"{escape_text(self._real_name)}\" \"{escape_text(self._value)}\"\\n')", 'replace': "            file.write('%s\"%s\" \"%s\"\\n' % (cur_indent, escape_text(self._real_name), escape_text(self._value)))", 'expect': None, 'refuse_ok': True},
     {'id': 'start_indent_through_textwrap', 'file': 'keyvalues.py', 'find': "        self._serialise(file, indent, open_brace, close_brace, start_indent)\n", 'replace': "        if start_indent:\n            import textwrap\n            block = io.StringIO()\n            self._serialise(block, indent, open_brace, close_brace, '')\n            file.write(textwrap.indent(block.getvalue(), start_indent))\n        else:\n            self._serialise(file, indent, open_brace, close_brace, start_indent)\n", 'expect': 'C01.R8'},
